@@ -1,5 +1,5 @@
 (* C10 — emission and distribution can never halt the chain. *)
-From C4E Require Import Base Minter MinterProofs MinterWalk Distributor DistrCoins DistrProofs Genesis Books.
+From C4E Require Import Base Minter MinterProofs MinterWalk Distributor DistrCoins DistrProofs Genesis Books AppBlock.
 Open Scope Z_scope.
 
 (* minter: for every configuration accepted by validation (linear periods of at least a millisecond,
@@ -80,6 +80,28 @@ Theorem C10_import_restores_accounts :
 Proof. exact distr_export_import. Qed.
 Print Assumptions C10_import_restores_accounts.
 
+(* both begin-blockers together, over whole histories: for every validated schedule from its genesis state, every distributor
+   world satisfying the invariant of C03 (configuration outside K1 / K2) and every strictly increasing sequence of block times,
+   each block — the minter mints into the distributor's main account, the distributor routes, pays and burns — returns; none
+   fails, none panics; the invariant is kept throughout *)
+Theorem C10_emission_and_distribution_never_halt :
+  forall (bk : Z) (Known : dacct -> Prop),
+  (forall a, Known a -> da_key a <> bk) ->
+  (forall a a', Known a -> Known a' -> da_key a = da_key a' -> da_id a = da_id a') ->
+  forall times w Tl,
+  let p := mw_params (aw_minter w) in let g := mw_state (aw_minter w) in
+  params_valid p = true -> periods_sane_from (mp_start p) (mp_minters p) -> mp_denom_ok p = true -> 0 <= mp_start p ->
+  match mp_minters p with cur :: _ => s_seq g = m_seq cur | [] => True end -> s_minted g = 0 -> s_rem_prev g = 0 ->
+  s_last g <= Tl -> increasing Tl times -> Forall (fun t => t <= MAXI64) times -> times <> [] ->
+  winv bk Known (aw_distr w) -> 0 <= aw_mint_denom w ->
+  exists tot w', app_run w times = Ok (tot, w') /\ winv bk Known (aw_distr w').
+Proof.
+  intros bk Known H1 H2 times w Tl p g Hv Hs Hd H0 Hg1 Hg2 Hg3 Hl Hinc Hmax Hne Hw Hden.
+  apply (app_history_never_halts bk Known H1 H2 times w); [|exact Hw|exact Hden].
+  destruct (partition_independence p (valid_chain _ _ _ Hv Hs) Hd H0 g Hg1 Hg2 Hg3 times Tl Hl Hinc Hmax Hne) as (st' & Hr). eauto.
+Qed.
+Print Assumptions C10_emission_and_distribution_never_halt.
+
 (* finding K1: the double-counting configuration panics in its second block *)
 From C4EProps Require C03.
 Theorem C10_refuted_K1 :
@@ -89,3 +111,25 @@ Theorem C10_refuted_K1 :
   end.
 Proof. vm_compute. reflexivity. Qed.
 Print Assumptions C10_refuted_K1.
+
+(* non-vacuity: C02's example schedule feeding C03's example graph meets every hypothesis of the theorem above, and the
+   history of three blocks it then guarantees to run is the one computed in C01_history_example *)
+Example C10_history_example_meets_the_hypotheses :
+  let p := {| mp_denom_ok := true; mp_start := 0;
+              mp_minters := [{| m_seq := 1; m_end := Some (1000 * 1000000000); m_cfg := CLinear 1000 |};
+                             {| m_seq := 2; m_end := None; m_cfg := CNone |}] |} in
+  let g := {| s_seq := 1; s_minted := 0; s_rem := 0; s_rem_prev := 0; s_last := 0 |} in
+  let w := {| aw_minter := {| mw_params := p; mw_state := g; mw_hist := []; mw_supply := 1001 |};
+              aw_distr := C4EProps.C03.ex_dworld; aw_mint_denom := 0 |} in
+  let times := [300500000000; 999000000000; 1500000000000] in
+  params_valid p = true /\ periods_sane_from (mp_start p) (mp_minters p) /\ mp_denom_ok p = true /\ 0 <= mp_start p /\
+  s_seq g = 1 /\ s_minted g = 0 /\ s_rem_prev g = 0 /\ s_last g <= 0 /\ increasing 0 times /\ Forall (fun t => t <= MAXI64) times /\
+  winv 9 C4EProps.C03.ex_known (aw_distr w) /\
+  exists tot w', app_run w times = Ok (tot, w') /\ tot = 1000.
+Proof.
+  cbv zeta. split; [reflexivity|]. split; [vm_compute; repeat split; reflexivity|].
+  split; [reflexivity|]. split; [cbn; lia|]. split; [reflexivity|]. split; [reflexivity|]. split; [reflexivity|]. split; [cbn; lia|].
+  split; [cbn; lia|]. split; [repeat constructor; unfold MAXI64; lia|].
+  split; [exact (proj1 C4EProps.C03.C03_example_world_satisfies_invariant)|].
+  eexists; eexists. split; [vm_compute; reflexivity|reflexivity].
+Qed.
